@@ -206,6 +206,39 @@ theorem odt_heading_level (defs : List Odt.StyleDef) (h : Node) :
       · simp only [hv, and_self, if_true, Option.some.injEq] at hl; omega
       · simp [hv] at hl
 
+/-- **odt_heading_outline_level_partial**. The statement of the property - the level of a
+`text:h` is the outline level the heading says itself (`text:outline-level` in 1..10; ODF 1.2
+part 1, 5.1.2) - for the headings whose paragraph style resolves to no level or to that very
+level. FULL STATEMENT (does not hold, see `odt_heading_own_style_level_counterexample`):
+`level19 (h.attr sOutlineLevel) = some l → (processHeading defs h).heading = some l` for every
+style sheet. Missing: `processHeading` prefers the level of the style the heading names. -/
+theorem odt_heading_outline_level_partial (defs : List Odt.StyleDef) (h : Node) (l : Nat)
+    (hl : Odt.level19 (h.attr Odt.sOutlineLevel) = some l)
+    (hs : Odt.resolveHeading defs (h.attr Odt.sStyleName) = none ∨ Odt.resolveHeading defs (h.attr Odt.sStyleName) = some l) :
+    (Odt.processHeading defs h).heading = some l := by
+  rw [odt_processHeading_factors]
+  rcases hs with hs | hs
+  · simp [processHeadingH, hs, hl]
+  · by_cases h0 : 0 < l
+    · simp [processHeadingH, hs, h0]
+    · simp [processHeadingH, hs, hl, h0]
+
+example : Odt.level19 (Node.attr (.elem [116, 101, 120, 116, 58, 104] [([116, 101, 120, 116, 58] ++ Odt.sOutlineLevel, [51])] []) Odt.sOutlineLevel) = some 3
+    ∧ Odt.resolveHeading [] (Node.attr (.elem [116, 101, 120, 116, 58, 104] [([116, 101, 120, 116, 58] ++ Odt.sOutlineLevel, [51])] []) Odt.sStyleName) = none := by decide
+
+/-- **odt_heading_own_style_level_counterexample** (finding C16/odt-outline-level-vs-own-style-level).
+`<text:h text:style-name="Heading_20_1" text:outline-level="3">` in a document whose style
+`Heading_20_1` carries `style:default-outline-level="1"`: the heading says level 3, the reader
+reports level 1 (`processHeading`: "if style has heading level, prefer that"). The same happens
+with no definition of the style at all (the level is then read off the built-in name). -/
+theorem odt_heading_own_style_level_counterexample :
+    let name : Str := [72, 101, 97, 100, 105, 110, 103, 95, 50, 48, 95, 49]
+    let h : Node := .elem [116, 101, 120, 116, 58, 104]
+      [([116, 101, 120, 116, 58] ++ Odt.sStyleName, name), ([116, 101, 120, 116, 58] ++ Odt.sOutlineLevel, [51])] [.text [88]]
+    Odt.level19 (h.attr Odt.sOutlineLevel) = some 3
+    ∧ (Odt.processHeading [{ name := name, defaultOutline := [49] }] h).heading = some 1
+    ∧ (Odt.processHeading [] h).heading = some 1 := by decide
+
 /-- a style whose own definition carries a default outline level in 1..10 gives that level -/
 theorem odt_style_level (defs : List Odt.StyleDef) (name : Str) (d : Odt.StyleDef) (l : Nat)
     (hn : name ≠ []) (hd : Odt.lookup defs name = some d) (hl : Odt.level19 d.defaultOutline = some l) :
